@@ -206,6 +206,11 @@ impl Xerr {
 //@use corewords.fns State::load_core#w_immediate
 //@use corewords.fns State::load_core#w_defined
 //@use corewords.fns State::load_core#w_let
+//@use corewords.fns State::load_core#w__x5ehex
+//@use corewords.fns State::load_core#w__x5edec
+//@use corewords.fns State::load_core#w__x5eoct
+//@use corewords.fns State::load_core#w__x5ebin
+//@use corewords.fns State::load_core#w_foreach
 
 // ---- `let`: run-time helper words it compiles calls of (named only), the emitter of a native call, a tag-key constant
 #[verifier::external_body] fn core_word_tags(xs: &mut State) -> Xresult { unimplemented!() }
@@ -270,6 +275,11 @@ impl State {
 //@use compile.fns ::core_word_map_end
 //@use compile.fns ::core_word_tagmap_begin
 //@use compile.fns ::core_word_tagmap_end
+#[verifier::external_body] fn update_fmt_base(xs: &mut State) -> Xresult { unimplemented!() }
+#[verifier::external_body] fn foreach_init(xs: &mut State) -> Xresult { unimplemented!() }
+#[verifier::external_body] fn foreach_next(xs: &mut State) -> Xresult { unimplemented!() }
+//@use compile.fns ::set_fmt_base
+//@use compile.fns ::core_word_foreach
 //@use compile.fns ::enum_flow_error
 //@use compile.fns ::enum_field_default
 //@use compile.fns ::build_let_match
